@@ -632,9 +632,14 @@ impl Printer {
 
     /// static characters → source text with entity encoding. `quote`: Some(q) inside an attribute value.
     pub fn static_text(&mut self, s: &str, quote: Option<char>) {
+        self.static_text_before(s, quote, false)
+    }
+
+    /// `binding_follows`: the literal is immediately followed by `{{`, so a trailing `{` must not touch it
+    pub fn static_text_before(&mut self, s: &str, quote: Option<char>, binding_follows: bool) {
         let chars: Vec<char> = s.chars().collect();
         for (i, &c) in chars.iter().enumerate() {
-            let next = chars.get(i + 1).copied();
+            let next = chars.get(i + 1).copied().or(if binding_follows { Some('{') } else { None });
             let must = match c {
                 '&' => true,
                 '<' => quote.is_none(),
@@ -713,9 +718,12 @@ impl Printer {
     }
 
     fn pieces(&mut self, ps: &[Piece], quote: Option<char>) {
-        for p in ps {
+        for (i, p) in ps.iter().enumerate() {
             match p {
-                Piece::Lit(s) => self.static_text(s, quote),
+                Piece::Lit(s) => {
+                    let follows = matches!(ps.get(i + 1), Some(Piece::Bind(_)));
+                    self.static_text_before(s, quote, follows)
+                }
                 Piece::Bind(e) => self.expr(e, quote),
             }
         }
@@ -996,11 +1004,19 @@ impl Printer {
     }
 
     pub fn template(&mut self, t: &Tmpl) {
+        let mut first = true;
         for i in &t.imports {
+            if !first {
+                self.ws_opt();
+            }
+            first = false;
             self.open_close("import", &mut |p: &mut Printer| p.attr_raw("src", Some(&Val::Static(i.clone()))), None);
-            self.ws_opt();
         }
         for w in &t.wxs {
+            if !first {
+                self.ws_opt();
+            }
+            first = false;
             match w {
                 Wxs::Inline { module, js } => {
                     self.out.push_str("<wxs");
@@ -1016,15 +1032,17 @@ impl Printer {
                     self.out.push_str("/>");
                 }
             }
-            self.ws_opt();
         }
         for (name, body) in &t.named {
+            if !first {
+                self.ws_opt();
+            }
+            first = false;
             self.out.push_str("<template");
             self.attr_raw("name", Some(&Val::Static(name.clone())));
             self.out.push('>');
             self.nodes(body);
             self.out.push_str("</template>");
-            self.ws_opt();
         }
         self.nodes(&t.body);
     }
